@@ -191,3 +191,15 @@ Proof.
   exact (conj rx_lengths (conj rx_smooth (conj rx_wf (conj rx_shape_ok (conj rx_consistent (conj rx_rsized
            (conj rx_gclean (conj rx_psz rx_run)))))))).
 Qed.
+
+(* the guards of the operators that exist only in the real family evaluate to true on concrete shapes *)
+Example C01_real_guards_nonvacuous :
+  d_ok (describeR (RMax (mkT [3%nat] 2) (mkT [1%nat] 2) 0)) = true /\
+  d_ok (describeR (RMin (mkT [2%nat; 3%nat] 1) (mkT [2%nat; 1%nat] 1) 1)) = true /\
+  d_ok (describeR (RLogSumExp (mkT [3%nat] 2) (mkT [1%nat] 2) 0)) = true /\
+  d_ok (describeR (RSCE (mkT [3%nat] 2) (mkT [1%nat] 2) 0)) = true /\
+  d_ok (describeR (RSparseSCE (mkT [3%nat] 2) (mkT [1%nat] 2) [2%nat; 0%nat] 0)) = true /\
+  d_ok (describeR (RSparseSCE (mkT [3%nat] 2) (mkT [1%nat] 2) [1%nat] 0)) = true /\
+  d_ok (describeR (RBin BDivide (mkT [3%nat] 2) (mkT [3%nat] 1))) = true /\
+  d_ok (describeR (RBin BPow (mkT [3%nat] 1) (mkT [3%nat] 4))) = true.
+Proof. exact rx_guards. Qed.
